@@ -87,6 +87,19 @@ Theorem c17_string_roundtrip : forall s enc pre r,
 Proof. exact mc_string_roundtrip. Qed.
 Print Assumptions c17_string_roundtrip.
 
+(* the two helpers of utils.rs the packet readers use: the direction of a length mismatch, and the nibbles of a byte *)
+From GD Require Import Proofs.UtilsSpecs.
+Theorem c17_expected_size_direction : forall e s,
+  (error_by_expected_size e s = Ok tt <-> e = s)
+  /\ (error_by_expected_size e s = Err PacketOverflow <-> e < s)
+  /\ (error_by_expected_size e s = Err PacketUnderflow <-> s < e).
+Proof. exact expected_size_spec. Qed.
+Print Assumptions c17_expected_size_direction.
+Theorem c17_u8_lower_upper : forall n,
+  u8_lower_upper n = (n mod 16, n / 16) /\ (n < 256 -> snd (u8_lower_upper n) * 16 + fst (u8_lower_upper n) = n /\ snd (u8_lower_upper n) < 16).
+Proof. exact u8_lower_upper_spec. Qed.
+Print Assumptions c17_u8_lower_upper.
+
 (* hypotheses are satisfiable by non-trivial values *)
 Example c17_ex_inv : buf_inv (at_ [1; 2] [3; 4; 0; 5]) /\
   run_bops_state false [OpRead false 2; OpUtf8 None; OpMove (-1)] (at_ [1; 2] [3; 4; 0; 5]) = at_ [1; 2; 3; 4] [0; 5].
